@@ -51,16 +51,31 @@ func init() {
 				add("B32-mmap-batch2", 32, p("n", 2, "maxlen", 70, "io", 1, "batch", 1))
 				add("B64-std-2rec", 64, p("n", 2, "maxlen", 70, "io", 0))
 			}
+			// real 32 KiB geometry: solver-enumerated lengths in the boundary classes
+			realStd := map[string]string{}
+			realMmap := map[string]string{"fio/mmap.go:blockSize": "262144"}
+			addReal := func(name string, scale map[string]string, params map[string]int64) {
+				js = append(js, JobSpec{Name: name, Harness: "datafile", Func: "verifHarnessC11Real", Params: params, Scale: scale, ConcCap: 256, PageSize: 4096})
+			}
+			if tier == "quick" {
+				addReal("real-std-2rec", realStd, p("n", 2, "blocks", 2, "win", 9, "io", 0, "lastsmall", 1))
+				addReal("real-std-batch2", realStd, p("n", 2, "blocks", 1, "win", 9, "io", 0, "batch", 1))
+			} else {
+				addReal("real-std-3rec", realStd, p("n", 3, "blocks", 2, "win", 9, "io", 0, "lastsmall", 1))
+				addReal("real-std-2rec-3blocks", realStd, p("n", 2, "blocks", 3, "win", 12, "io", 0))
+				addReal("real-std-batch3", realStd, p("n", 3, "blocks", 1, "win", 9, "io", 0, "batch", 1, "lastsmall", 1))
+				addReal("real-mmap-2rec", realMmap, p("n", 2, "blocks", 2, "win", 9, "io", 1, "lastsmall", 1))
+			}
 			js = append(js, JobSpec{Name: "witness", Harness: "datafile", Func: "verifHarnessC11Scaled", Params: p("n", 1, "maxlen", 2, "io", 0, "witness", 1), Scale: scaleDF(32), Witness: true})
 			return js
 		},
 		Assumptions: []string{"blockSize scaled to 32/64 by AST rewrite of the current source (Level 1); mmap granule scaled to 128",
 			"I/O never fails", "ideal checksum stands in for CRC-32 on symbolic bytes"},
 		Bounds: map[string]string{
-			"quick":    "scaled block 32: 1 record of every length 0..70 (keys 1-2 bytes), 2 records of every length pair 0..34; FileIO and MMap; single write and staged flush; all byte contents symbolic",
-			"thorough": "scaled block 32/64: 1 record 0..100, 2 records 0..70 each, 3 records 0..34 each; FileIO and MMap; single writes and staged multi-record flush; all byte contents symbolic",
+			"quick":    "scaled block 32: 1 record of every length 0..70 (keys 1-2 bytes), 2 records of every length pair 0..34; FileIO and MMap; single write and staged flush; all byte contents symbolic. REAL 32 KiB block: 2 records whose lengths the solver enumerates over every value that puts the record end within 9 bytes of a block boundary (records up to 2 blocks), single writes and a staged flush, concrete pattern content with symbolic first/last bytes",
+			"thorough": "scaled block 32/64: 1 record 0..100, 2 records 0..70 each, 3 records 0..34 each; FileIO and MMap; single writes and staged multi-record flush; all byte contents symbolic. REAL 32 KiB block: 3 records (2 in boundary classes), records up to 3 blocks, staged flush of 3, mmap",
 		},
-		Outside: "real 32 KiB geometry (uint16 length field vs block size, 32-bit wrap of blockID*blockSize), more than 3 records per file, I/O errors",
+		Outside: "at the real 32 KiB geometry only record ends within 9-12 bytes of a block boundary are enumerated (the scaled tiers cover every offset of a 32/64-byte block); files beyond 4 blocks (32-bit wrap of blockID*blockSize); more than 3 records per file; I/O errors",
 		Stubs:   stubsCommon,
 	})
 }
